@@ -1,5 +1,5 @@
 (* C11 — diagnosis of the generated-table obligations: prints the offending entries (no proofs involved). *)
-From V Require Import Base.Common Base.C11_Http Gen.RestRoutes Gen.RestClient Model.C11_Rest.
+From V Require Import Base.Common Base.C11_Http Gen.RestRoutes Gen.RestClient Model.C11_Rest Model.C11_Check Model.C11_Tables.
 Open Scope string_scope.
 Open Scope list_scope.
 
@@ -11,6 +11,27 @@ Print diag_rest_error_sites_return.
 Definition diag_rest_handlers_known := Eval vm_compute in
   flat_map (fun r => let '(n, _, _, h) := r in match rhandler_of_name h with RUnknown => [n] | _ => [] end) rest_routes.
 Print diag_rest_handlers_known.
+
+(* routes(): entries that differ from the hand-written route_spec (rest_table_spec) *)
+Definition diag_rest_routes_table := Eval vm_compute in routes_diff rest_routes route_spec.
+Print diag_rest_routes_table.
+
+(* routes whose handler's RPC call sites are not the ones the route name denotes (rest_route_ops) *)
+Definition diag_rest_route_ops := Eval vm_compute in
+  flat_map (fun r : string * string * string * string => if route_ops_okb r && route_model_okb r then [] else [fst (fst (fst r))]) rest_routes.
+Print diag_rest_route_ops.
+
+(* the handler chain of NewAPIWithHost (rest_chain_spec): auth outermost, then CORS, then the router *)
+Definition diag_rest_chain := Eval vm_compute in
+  if list_eqb String.eqb rest_handler_chain ["basicAuthHandler"; "cors.New.Handler"; "router"]
+     && list_eqb String.eqb rest_server_handler ["handlers.LoggingHandler"; "handler"] && rest_strict_slash
+     && String.eqb rest_not_found "notFoundHandler" && list_eqb String.eqb rest_registration ["Methods"; "Path"; "Name"; "Handler"]
+  then [] else rest_handler_chain ++ rest_server_handler ++ [rest_not_found] ++ rest_registration.
+Print diag_rest_chain.
+
+(* client methods whose request differs from the hand-written table, or that the model does not know (client_table_spec) *)
+Definition diag_client_table := Eval vm_compute in client_diff.
+Print diag_client_table.
 
 Definition size_rest_routes := Eval vm_compute in List.length rest_routes.
 Print size_rest_routes.
